@@ -142,6 +142,7 @@ struct Case
     // env
     std::string name, value, dflt;
     int state = 0; // 0 unset, 1 set empty, 2 set to value
+    int neighbour = 0; // != 0: variables whose names start with / end in the name are set, too
     // dl
     std::vector<Op> ops;
     template <class A>
@@ -152,6 +153,7 @@ struct Case
         a("value", value);
         a("dflt", dflt);
         a("state", state);
+        a("neighbour", neighbour);
         a("ops", ops);
     }
 };
@@ -174,7 +176,8 @@ std::string describe(const Case& c)
     {
         o << "env::get(" << vf::vis("NITRO_VERIF_" + c.name, 60) << ") with the variable "
           << (c.state == 0 ? "unset" : c.state == 1 ? "set to the empty string" : "set to " + vf::vis(c.value, 60))
-          << ", default " << vf::vis(c.dflt, 30);
+          << ", default " << vf::vis(c.dflt, 30)
+          << (c.neighbour ? ", variables with longer names around it" : "");
         return o.str();
     }
     o << "dl:";
@@ -244,6 +247,7 @@ Case generate(vf::Src& src, const std::string& mode)
         if (c.value.empty())
             c.value = "v";
         c.dflt = src.coin(50) ? "" : (src.coin(50) ? "dflt" : bytes(0, 8, false));
+        c.neighbour = src.coin(25) ? 1 : 0;
         return c;
     }
     int n = src.irange(1, 30);
@@ -595,6 +599,23 @@ static std::string check_env(const Case& c, vf::Ctx& ctx)
 {
     std::string name = "NITRO_VERIF_" + c.name;
     ::unsetenv(name.c_str());
+    // other variables next to it (set first: they come earlier in environ): NAME_MAX and NAMEx are not NAME
+    struct Neighbours
+    {
+        std::vector<std::string> names;
+        ~Neighbours()
+        {
+            for (auto& n : names)
+                ::unsetenv(n.c_str());
+        }
+    } nb;
+    if (c.neighbour)
+    {
+        nb.names = { name + "_MAX", name + "x", "X" + name };
+        for (auto& n : nb.names)
+            ::setenv(n.c_str(), "neighbour=1", 1);
+        ctx.tag("env:neighbouring-names-set");
+    }
     if (c.state == 1)
         ::setenv(name.c_str(), "", 1);
     else if (c.state == 2)
